@@ -1,15 +1,16 @@
 #!/bin/sh
 # Final confirmation of the seeded changes against /repo itself (the procedure of the task brief):
 #   git -C /repo apply <patch>; ./check <property>; git -C /repo checkout -- .
+# Usage: tools/seedconfirm.sh ['<shell pattern of seed names>'] ; SEEDCONFIRM_OUT=<file> selects the result file.
 # Writes seeded/RESULTS.tsv (seed, property, exit code, number of VIOLATION lines, first failed obligation).
 # The evidence files are rewritten by these runs: re-run the checks on the clean tree afterwards.
 cd "$(dirname "$0")/.." || exit 2
 [ -z "$(git -C /repo status --porcelain)" ] || { echo "/repo is not clean"; exit 2; }
-out=seeded/RESULTS.tsv
+out=${SEEDCONFIRM_OUT:-seeded/RESULTS.tsv}
 printf 'seed\tproperty\texit\tviolation_lines\tfirst_failed_obligation\n' > $out
 for d in seeded/C??-?; do
   n=$(basename $d); p=$(jq -r .property $d/meta.json)
-  [ -n "$1" ] && case "$n" in *"$1"*) ;; *) continue;; esac
+  [ -n "$1" ] && case "$n" in $1) ;; *) continue;; esac
   if ! git -C /repo apply "$PWD/$d/patch.diff"; then printf '%s\t%s\tpatch-does-not-apply\t0\t\n' $n $p >> $out; continue; fi
   o=$(./check $p 2>&1); rc=$?
   git -C /repo checkout -- .
